@@ -129,7 +129,8 @@ def run_vh(sub, cases, profile="release", jobs=None, per_case_timeout=2.0, extra
     res = [None] * n
     env = None
     if stack_mb:
-        env = dict(ENV, VH_STACK_MB=str(stack_mb))
+        # fractions of a MiB are passed on in KiB
+        env = dict(ENV, VH_STACK_MB=str(stack_mb)) if float(stack_mb).is_integer() else dict(ENV, VH_STACK_KB=str(int(stack_mb * 1024)))
     with ThreadPoolExecutor(max_workers=jobs) as ex:
         futs = [ex.submit(_run_shard, exe, sub, [cases[i] for i in idx], per_case_timeout, extra_args or [], env)
                 for idx in shards]
